@@ -84,6 +84,11 @@ var corpus = [][]string{
 	// the nested registration as soon as the handler runs (name 21 is still running when worker 1 is re-registered)
 	{"mode seq", "obs on", "ctxflag", "bw 1 5 a@0", "bw 2 0 a@9", "start", "workers", "ctxflag", "fin 1", "bw 1 -3 a@-3", "workers", "sdw", "seenlog",
 		"ctxflag", "bw 21 0 c"},
+	// Shutdown() from inside a handler: the model runs the body of stopOnce when the `k` instance is asked to finish (at
+	// once when it runs, or as soon as it is started); afterwards everything is refused
+	{"mode seq", "obs on", "bw 1 5 k", "bw 2 0 c", "bw 3 5 a@-3", "bw 4 9 c", "start", "workers", "ctxflag", "fin 1", "seenlog", "ctxflag", "workers", "isrunning",
+		"bw 5 0 c", "start", "sdw", "seenlog"},
+	{"mode seq", "bw 1 -3 k", "bw 2 0 c", "fin 1", "workers", "isstopped", "start", "seenlog", "ctxflag", "isrunning", "bw 2 0 c", "sdw"},
 	{"mode seq", "bw 1 2 a@2", "start", "bw 2 2 a@-9223372036854775808", "bw 3 9223372036854775807 a@9223372036854775807", "workers", "fin 21", "fin 2",
 		"bw 2 0 a@5", "workers", "ctxflag", "sdw", "seenlog", "ctxflag", "ctxstopped"},
 	// equal-order workers that hold until their peers are cancelled; a gated top group
@@ -121,6 +126,9 @@ func genSeq(rng *hx.Rng) []string {
 		case x < 7:
 			// the handler registers another worker (name + 20) from inside
 			return fmt.Sprintf("a@%d", hx.Pick(rng, pool))
+		case x < 8:
+			// the handler shuts the daemon down from inside when it is asked to finish (`fin`)
+			return "k"
 		}
 
 		return "c"
